@@ -86,13 +86,13 @@ theorem blocking_sites :
       ∧ blocks.length = expected.length := by
   decide +kernel
 
-/-- The operations that nothing releases after cancellation are exactly the three known ones:
-    `mapfile`'s scanner and the two FIFO opens of a process substitution. -/
+/-- The operations that nothing releases after cancellation are exactly the two FIFO opens of a
+    process substitution (`mapfile`'s scanner is deadline-aware since 5c04a9d). -/
 theorem blocking_unreleased :
     (expected.filter fun x => x.rel = .unreleased).map (·.key) = unreleasedKeys := by
   decide +kernel
 
-/-- Wait-for closure.  Leaving the three known operations aside, no operation and no activity can
+/-- Wait-for closure.  Leaving the known FIFO opens aside, no operation and no activity can
     stay blocked once the context is cancelled: each is deadline-aware, context-aware, blocked on
     caller-supplied I/O only, or waits for peers that end.  With them, `wait`'s receive on
     `bg.done` is among the stuck operations (a process substitution nobody opens never ends, so
@@ -110,6 +110,22 @@ theorem stop_sites :
     (ShVerif.Gen.C31.ctxUses.filter fun x => x.2.1 = "stop-call") = stopCalls
       ∧ (ShVerif.Gen.C31.ctxUses.filter fun x => x.2.1 ≠ "stop-call").all ShVerif.Expect.C31.ctxUses.contains = true
       ∧ ShVerif.Expect.C31.ctxUses.all ShVerif.Gen.C31.ctxUses.contains = true := by
+  decide +kernel
+
+/-- Context capture.  The command- and process-substitution callbacks stored in `r.ecfg` are
+    long-lived closures.  Either every one of them reads the context through the Runner field that
+    `Run` refreshes (`r.ectx`), or — what the code does — they capture the `ctx` parameter of the
+    `fillExpandConfig` call that built them, and then `Run` must rebuild them on every call:
+    exactly one call of `fillExpandConfig` in `Run`, unconditional, passing `Run`'s own context
+    parameter; every other caller passes the refreshed field.  Making the call conditional (reusing
+    an existing `r.ecfg`) would leave a reused Runner's substitutions on a stale context that the
+    caller can no longer cancel. -/
+theorem ctx_capture :
+    (callbackCtx.any fun x => x.2.1 = "CmdSubst") = true
+      ∧ (callbackCtx.any fun x => x.2.1 = "ProcSubst") = true
+      ∧ (callbackCtx.all (fun x => x.2.2 = "field:ectx")
+          || ((fillCalls.filter fun x => x.1 = "Runner.Run") = [("Runner.Run", false, "param")]
+              && (fillCalls.filter fun x => x.1 ≠ "Runner.Run").all (fun x => x.2.2 = "field:ectx"))) = true := by
   decide +kernel
 
 end ShVerif.Props.C31
